@@ -63,8 +63,11 @@ TARGETS = [
     ('utf32_measure_from_utf16', 'size_t (const char16_t *, size_t)'),
     ('write_utf8', '_ST_PRIVATE::conversion_error_t (char *&, char32_t)'),
     ('write_utf16', '_ST_PRIVATE::conversion_error_t (char16_t *&, char32_t)'),
+    ('utf8_convert_from_latin_1', 'void (char *, const char *, size_t)'),
 ]
 # a pointer parameter that points into the array of another parameter (one past its end): it is passed as an index
+# functions whose first `T *` parameter with a non-const pointee is a write-only cursor (used only as `*p++ = e`)
+PLAIN_CURSOR_FUNCS = ('utf8_convert_from_latin_1',)
 ALIAS_PARAMS = {('extract_utf8', 'end'): 'utf8', ('extract_utf16', 'end'): 'utf16'}
 # a translated function that returns a pointer returns it into the array of this parameter
 RET_BASE_PARAM = 0
@@ -294,6 +297,16 @@ class Translator:
             base, idx = ptrs[RET_BASE_PARAM]
             return (base, r if idx == '(0)' else '(if Z.eqb %s (-1) then (-1) else (%s + %s))' % (r, idx, r))
         return (None, r)
+
+    def out_actual(self, env):
+        return [env[('out', self.out_cursor)]] if self.out_cursor is not None else []
+
+    def result_type(self):
+        if self.ref_ptrs:
+            return 'Z * Z'
+        if self.out_cursor is not None:
+            return 'list Z' if self.void else 'Z * list Z'
+        return 'Z'
 
     def with_binds(self, binds, text):
         for name, c in reversed(binds):
@@ -613,6 +626,9 @@ class Translator:
 
     def stmts(self, lst, env):
         if not lst:
+            if self.void and self.out_cursor is not None:
+                v = env[('out', self.out_cursor)]
+                return '(Some %s)' % v if self.opt else v
             raise Unsupported('control reaches the end of the function')
         s, rest = lst[0], lst[1:]
         k = s.get('kind')
@@ -636,7 +652,7 @@ class Translator:
                 raise Unsupported('break / continue inside do { } while (false)')
             return self.stmts([inner[0]] + rest, env)
         if k == '__continue__':
-            return '(%s %s)' % (s['lname'], ' '.join(["fuel'"] + self.arrays + [env[i] for i in s['ids']]))
+            return '(%s %s)' % (s['lname'], ' '.join(["fuel'"] + self.arrays + [env[i] for i in s['ids']] + self.out_actual(env)))
         if k == 'ReturnStmt':
             v, pend, binds = self.full_expr(inner[0], env, allow_pending=bool(self.ref_ptrs))
             lets, env2 = self.apply_pending(pend, env)
@@ -668,7 +684,9 @@ class Translator:
                 f = 'l_' + self.var_names.get(i, 'x%d' % len(formals))
                 formals.append(f)
                 env2[i] = f
-            call = '(%s %s)' % (lname, ' '.join([self.fuel] + self.arrays + [env[i] for i in ids]))
+            call = '(%s %s)' % (lname, ' '.join([self.fuel] + self.arrays + [env[i] for i in ids] + self.out_actual(env)))
+            if self.out_cursor is not None:
+                env2[('out', self.out_cursor)] = 'l_out'
             saved = self.fuel
             self.fuel = "fuel'"
             cont = {'kind': '__continue__', 'lname': lname, 'ids': ids}
@@ -686,8 +704,9 @@ class Translator:
             self.loop_stack.pop()
             self.fuel = saved
             self.loop_defs.append(
-                "Fixpoint %s (fuel : nat) %s {struct fuel} : option Z :=\n  match fuel with\n  | O => None\n  | S fuel' =>\n  %s\n  end."
-                % (lname, ' '.join(['(%s : Z -> Z)' % a for a in self.arrays] + ['(%s : Z)' % f for f in formals]), text))
+                "Fixpoint %s (fuel : nat) %s {struct fuel} : option (%s) :=\n  match fuel with\n  | O => None\n  | S fuel' =>\n  %s\n  end."
+                % (lname, ' '.join(['(%s : Z -> Z)' % a for a in self.arrays] + ['(%s : Z)' % f for f in formals]
+                                   + (['(l_out : list Z)'] if self.out_cursor is not None else [])), self.result_type(), text))
             return call
         if k == 'DeclStmt':
             if not inner:
@@ -723,7 +742,8 @@ class Translator:
                 t = self.stmts([then], env)
                 e = self.stmts([els] if els is not None else rest, env)
                 return self.with_binds(binds, '(if z2b %s then %s else %s)' % (cond, t, e))
-        if k == 'IfStmt' and contains_kind(s, ('ReturnStmt', 'ContinueStmt')):
+        if k == 'IfStmt' and (contains_kind(s, ('ReturnStmt', 'ContinueStmt')) or
+                              (self.out_cursor is not None and contains_store(s, self.out_cursor))):
             # some path returns, some falls through: the rest of the block is translated in both branches
             cond, _, binds = self.full_expr(inner[0], env)
             t = self.stmts([inner[1]] + rest, env)
@@ -847,6 +867,11 @@ class Translator:
                     self.out_cursor = c['id']
                     env[('out', c['id'])] = '[]'
                     continue
+                if q.endswith('*') and not (c.get('type') or {}).get('qualType', '').strip().startswith('const ') \
+                        and self.out_cursor is None and name in PLAIN_CURSOR_FUNCS:
+                    self.out_cursor = c['id']
+                    env[('out', c['id'])] = '[]'
+                    continue
                 if q.replace(' ', '').endswith('*&'):
                     pname = 'p_' + c['name']
                     params.append('(%s : Z -> Z)' % pname)
@@ -878,7 +903,10 @@ class Translator:
             elif c.get('kind') == 'CompoundStmt':
                 body = c
         ret = (n.get('type') or {}).get('qualType', '').split('(')[0].strip()
-        if not ret.endswith('*'):
+        self.void = ret == 'void'
+        if self.void and self.out_cursor is None:
+            raise Unsupported('void function without an output cursor')
+        if not ret.endswith('*') and not self.void:
             self.int_type({'qualType': ret, 'desugaredQualType': {'size_t': 'unsigned long', 'ST_ssize_t': 'long'}.get(ret, ret)})
         if self.opt and any(isinstance(pp, tuple) for pp in params):
             raise Unsupported('record parameter in a function with a loop')
@@ -893,8 +921,8 @@ class Translator:
         if self.opt:
             if self.ref_ptrs:
                 raise Unsupported('loop in a function with a T*& parameter')
-            return '\n\n'.join(self.loop_defs + ['Definition src_%s (fuel : nat) %s : option Z :=\n  %s.' % (cname or name, ' '.join(plist), text)])
-        return 'Definition src_%s %s : %s :=\n  %s.' % (cname or name, ' '.join(plist), 'Z * Z' if self.ref_ptrs else ('Z * list Z' if self.out_cursor is not None else 'Z'), text)
+            return '\n\n'.join(self.loop_defs + ['Definition src_%s (fuel : nat) %s : option (%s) :=\n  %s.' % (cname or name, ' '.join(plist), self.result_type(), text)])
+        return 'Definition src_%s %s : %s :=\n  %s.' % (cname or name, ' '.join(plist), self.result_type(), text)
 
 
 def has_loop(n):
@@ -928,6 +956,14 @@ def is_cursor_store(lhs, vid):
     while y.get('kind') == 'ParenExpr':
         y = y['inner'][0]
     return y.get('kind') == 'DeclRefExpr' and (y.get('referencedDecl') or {}).get('id') == vid
+
+
+def contains_store(n, vid):
+    if not isinstance(n, dict):
+        return False
+    if n.get('kind') == 'BinaryOperator' and n.get('opcode') == '=' and n.get('inner') and is_cursor_store(n['inner'][0], vid):
+        return True
+    return any(contains_store(c, vid) for c in (n.get('inner') or []))
 
 
 def n_cast_to_void(s):
